@@ -246,3 +246,120 @@ def strip_overrides(spec):
     for d in s["derived"]:
         d["overrides"] = {}
     return s
+
+
+# ------------------------------------------------------------------------------------------------ scenario generator
+# Independent random draws almost never build a design in which two or three SPECIFIC features meet (a crossed
+# within-trial factor with an uncrossed source AND a leftover round; a preamble AND an Exclude AND near-exhaustive
+# requests; ...), and that is exactly where the seeded changes of DESIGN.md 11.7 hid.  The scenario generator draws a
+# small set of features first and then CONSTRUCTS a design that has all of them, filling the rest at random.
+
+SCENARIO_FEATURES = (
+    "crossed-within-uncrossed-source",   # crossing contains X = WithinTrial(crossed A, uncrossed B)
+    "preamble",                          # crossing contains a Transition / Window(width 2) factor
+    "min-leftover",                      # MinimumTrials leaving a partial round
+    "min-multiple",                      # MinimumTrials = 2 rounds
+    "exclude-crossed-basic",             # Exclude on a crossed basic level (require_complete_crossing=False)
+    "exclude-uncrossed-basic",           # Exclude on a level of an uncrossed basic factor
+    "exclude-uncrossed-derived",         # Exclude on a level of an uncrossed within-trial factor with an uncrossed source
+    "weight-crossed", "weight-uncrossed",
+    "multi-different-preambles",         # MultiCrossBlock, one crossing with preamble, one without, PARALLEL_START / POST_PREAMBLE
+    "run-length", "pin", "exactly-k",
+    "repeat-leftover",                   # Repeat(block, [MinimumTrials(non-multiple)])
+    "uncrossed-transition",              # an uncrossed Transition factor with a constraint on it
+)
+
+
+@st.composite
+def scenario_spec(draw, c=None):
+    c = c or DEFAULT
+    k = draw(st.integers(2, 3))
+    feats = set(draw(st.lists(st.sampled_from(SCENARIO_FEATURES), min_size=k, max_size=k, unique=True)))
+    nl = lambda: draw(st.sampled_from([2, 2, 3]))                                       # noqa: E731
+    def levels(prefix, n, weighted):
+        out = []
+        for j in range(n):
+            w = draw(st.sampled_from([2, 2, 3])) if (weighted and j == draw(st.integers(0, n - 1))) else 1
+            out.append(["%s%d" % (prefix, j), w])
+        if weighted and all(l[1] == 1 for l in out):
+            out[0][1] = 2
+        return out
+    A = {"name": "A", "levels": levels("a", nl(), "weight-crossed" in feats)}
+    B = {"name": "B", "levels": levels("b", nl(), "weight-uncrossed" in feats)}
+    factors = [A, B]
+    if draw(st.integers(0, 3)) == 0:
+        factors.append({"name": "C", "levels": levels("c", 2, False)})
+    derived = []
+    crossing = ["A"]
+    constraints = []
+    rcc = True
+
+    def dfac(name, args, kind, n=2, width=1):
+        d = {"name": name, "args": args, "kind": kind, "width": width, "stride": 1, "start": None,
+             "levels": [["%s%d" % (name.lower(), j), 1] for j in range(n)], "else_last": draw(st.integers(0, 3)) == 0,
+             "salt": draw(st.integers(0, 10 ** 6)), "overrides": {}}
+        derived.append(d)
+        return d
+    if "crossed-within-uncrossed-source" in feats:
+        dfac("X", ["A", "B"], "within")
+        crossing = draw(st.sampled_from([["A", "X"], ["X"], ["X", "A"]]))
+    if "exclude-uncrossed-derived" in feats:
+        dfac("W", draw(st.sampled_from([["A", "B"], ["B"], ["B", "A"]])), "within")
+        constraints.append({"kind": "exclude", "factor": "W", "level": "w%d" % draw(st.integers(0, 1))})
+        rcc = draw(st.booleans())
+    if "preamble" in feats or "multi-different-preambles" in feats:
+        kind = draw(st.sampled_from(["transition", "transition", "window"]))
+        d = dfac("Y", [draw(st.sampled_from(["A", "B"]))], kind, width=2)
+        crossing = crossing + ["Y"] if draw(st.booleans()) else ["Y"] + [x for x in crossing if x != "A"][:1]
+    if "uncrossed-transition" in feats:
+        dfac("Z", [draw(st.sampled_from(["A", "B"]))], "transition", width=2)
+        constraints.append({"kind": draw(st.sampled_from(["atmost", "exclude", "exactly_k"])), "factor": "Z",
+                            "level": "z%d" % draw(st.integers(0, 1)), "k": draw(st.integers(1, 2))})
+    names = [f["name"] for f in factors] + [d["name"] for d in derived]
+    spec = {"factors": factors, "derived": derived}
+    if "exclude-crossed-basic" in feats:
+        f0 = [n for n in crossing if n in ("A", "B")] or ["A"]
+        if f0[0] not in crossing:
+            crossing = crossing + [f0[0]]
+        lv = S.levels_of(spec, f0[0])
+        constraints.append({"kind": "exclude", "factor": f0[0], "level": draw(st.sampled_from([l[0] for l in lv]))})
+        rcc = False
+    if "exclude-uncrossed-basic" in feats:
+        unc = [n for n in ("B", "A", "C") if n in names and n not in crossing]
+        if unc:
+            lv = S.levels_of(spec, unc[0])
+            if len(lv) >= 2:
+                constraints.append({"kind": "exclude", "factor": unc[0], "level": draw(st.sampled_from([l[0] for l in lv]))})
+    leaf = {"type": "cross", "design": names, "crossing": crossing, "constraints": [], "rcc": rcc}
+    block = leaf
+    if "multi-different-preambles" in feats:
+        other = [n for n in ("B", "A", "C") if n in names and n not in crossing][:1] or ["B"]
+        block = {"type": "multi", "design": names, "crossings": [crossing, other] if draw(st.booleans()) else [other, crossing],
+                 "constraints": [], "rcc": rcc, "mode": draw(st.sampled_from(["weight", "repeat"])),
+                 "alignment": draw(st.sampled_from(["parallel start", "parallel start", "post preamble"]))}
+    spec["block"] = block
+    T = estimate_T(spec) or 3
+    Sz = max(1, T - (1 if any(d["name"] in crossing and d["kind"] != "within" for d in derived) else 0))
+    for feat, kinds in (("run-length", ("atmost", "atleast", "exactly_row")), ("pin", ("pin",)), ("exactly-k", ("exactly_k",))):
+        if feat in feats:
+            constraints.append(draw(constraint(c, spec, T, names, kinds=kinds)))
+    if "min-leftover" in feats:
+        constraints.append({"kind": "min", "k": T + draw(st.integers(1, max(1, Sz - 1)))})
+    elif "min-multiple" in feats:
+        constraints.append({"kind": "min", "k": T + Sz})
+    block["constraints"] = constraints
+    if "repeat-leftover" in feats and block["type"] == "cross":
+        inner_cons = [x for x in constraints if x["kind"] not in ("min",)]
+        block["constraints"] = inner_cons
+        spec["block"] = {"type": "repeat", "block": block,
+                         "constraints": [{"kind": "min", "k": T + draw(st.integers(1, max(1, 2 * Sz - 1)))}]}
+    if c.get("aux"):
+        spec["aux"] = draw(st.integers(0, 2 ** 30))
+    spec["scenario"] = sorted(feats)
+    return spec
+
+
+def mixed_spec(c=None, p_scenario=0.5):
+    """half generic random designs, half constructed feature-interaction scenarios"""
+    c = c or DEFAULT
+    return st.one_of(design_spec(c), scenario_spec(c)) if p_scenario >= 0.5 else st.one_of(design_spec(c), design_spec(c), scenario_spec(c))
